@@ -315,7 +315,7 @@ def run_once(case, env, tmpdir, state, fault, res, buffered=False):
             call()
     except KeyboardInterrupt:
         outcome = "KeyboardInterrupt"
-    except Exception as e:
+    except (Exception, SystemExit) as e:
         outcome = type(e).__name__
     finally:
         sys.stdout = saved
@@ -376,6 +376,10 @@ def run_once(case, env, tmpdir, state, fault, res, buffered=False):
 def exc_factory(name):
     if name == "KeyboardInterrupt":
         return KeyboardInterrupt
+    if name == "SystemExit":
+        # what a ``signal.signal(SIGTERM, lambda *_: sys.exit())`` handler raises out of
+        # the interrupted write: an exception that is not an ``Exception``
+        return lambda: SystemExit("injected")
     return lambda: RuntimeError("injected")
 
 
@@ -407,8 +411,13 @@ def run_subject(case, env, tmpdir, state, res, rnd):
             prefixes = sorted({0, 1 if dlen > 1 else 0, dlen - 1, dlen} | set(cuts))
         else:
             prefixes = [0]
-        for exc in ("KeyboardInterrupt", "RuntimeError"):
-            for p in prefixes:
+        for exc in ("KeyboardInterrupt", "RuntimeError", "SystemExit"):
+            if exc == "SystemExit":
+                # (sampled: where what has been delivered ends inside a sequence)
+                inside = [p for p in prefixes if 0 < p < dlen]
+                if not inside:
+                    continue
+            for p in prefixes if exc != "SystemExit" else inside[:: max(1, len(inside) // 2)][:2]:
                 fault = (i, p, exc_factory(exc), exc)
                 try:
                     pr, outcome, errs = run_once(case, env, tmpdir, state, fault, res)
